@@ -313,7 +313,24 @@ pub fn oracle(case: &Case) -> Verdict {
         Ok(b) => b,
         Err(e) => vfail!("reencode-error", "after steps {:?}: {e:?}", case.steps),
     };
-    if bf[1..] != expect_body[..] {
+    // a map may legitimately come out in another key order after a conversion rebuilt it (the library's order over
+    // non-minimal big integers is not a total order, C11-F1, so the order of such keys depends on the insertion
+    // sequence): what this property owes then is the same value with every identifier's bytes unchanged
+    let reordered_map_only = bf[1..] != expect_body[..] && has_map(v) && {
+        let mut eb = vec![131u8];
+        eb.extend_from_slice(&expect_body);
+        match (refdec_spans(&bf), refdec_spans(&eb)) {
+            (Ok((vf, sf)), Ok((ve, se))) => {
+                let mut a: Vec<&[u8]> = sf.iter().map(|s| span_bytes(&bf, s)).collect();
+                let mut b: Vec<&[u8]> = se.iter().map(|s| span_bytes(&eb, s)).collect();
+                a.sort();
+                b.sort();
+                vf.same(&ve) && a == b
+            }
+            _ => false,
+        }
+    };
+    if bf[1..] != expect_body[..] && !reordered_map_only {
         vfail!(
             "bytes-changed-by-conversion",
             "after steps {:?} the encoding is {} expected {}",
@@ -336,6 +353,7 @@ pub fn oracle(case: &Case) -> Verdict {
             .class_if(n_local_nested > 0, "local-ext-nested")
             .class_if(used.iter().any(|u| *u == "port" || *u == "idform" || *u == "ref"), "alt-identifier-form")
             .class_if(has_map(v), "map-carrier")
+            .class_if(reordered_map_only, "map-reordered-by-conversion")
             .class_if(case.steps.iter().any(|s| *s == Step::Wire), "step:wire")
             .class_if(case.steps.iter().any(|s| *s == Step::Borrow), "step:borrow"),
     )
